@@ -44,7 +44,7 @@ CHECKS['C02'] = dict(
     tus=_vs_tus('c02', 'harness/c02_views.cpp', _VS_C02_ONLY),
     runs=dict(quick=_vs_runs('c02', dict(N=3, depth=3, pads=2, subimage=1, maxsub=3), 2, extra=_VS_C02_ONLY),
               thorough=_vs_runs('c02', dict(N=5, depth=3, pads=3, subimage=1, maxsub=3), 8, extra=_VS_C02_ONLY) +
-                       _vs_runs('c02', dict(N=3, depth=4, pads=2, subimage=2, maxsub=2), 8, extra=_VS_C02_ONLY)),
+                       _vs_runs('c02', dict(N=3, depth=4, pads=2, subimage=2, maxsub=2, probe=1), 8, extra=_VS_C02_ONLY)),
     witnesses_required=dict(all=['negative_step_states', 'transposed_states', 'channel_states', 'converted_states', 'subsampled_states']
                                 + ['org_' + g for gs in _VS_SETS.values() for g in gs] + ['org_virtual_rgb8']),
     deadline=dict(quick=900, thorough=5400),
@@ -61,7 +61,7 @@ CHECKS['C03'] = dict(
     tus=_vs_tus('c03', 'harness/c03_nav.cpp', _VS_C02_ONLY),
     runs=dict(quick=_vs_runs('c03', dict(N=3, depth=2, pads=2, subimage=1, maxsub=2), 2, extra=_VS_C02_ONLY),
               thorough=_vs_runs('c03', dict(N=5, depth=2, pads=3, subimage=1, maxsub=3), 8, extra=_VS_C02_ONLY) +
-                       _vs_runs('c03', dict(N=3, depth=3, pads=2, subimage=2, maxsub=2), 8, extra=_VS_C02_ONLY)),
+                       _vs_runs('c03', dict(N=3, depth=3, pads=2, subimage=2, maxsub=2, probe=1), 8, extra=_VS_C02_ONLY)),
     witnesses_required=dict(all=['negative_step_states', 'transposed_states', 'channel_states', 'padded_rows', 'traversable_true', 'traversable_false']),
     deadline=dict(quick=900, thorough=5400),
 )
